@@ -70,13 +70,26 @@ func (b *TCPBackends) BuildSortedItems() []*TCPBackend {
 
 // Changed ...
 func (b *TCPBackends) Changed() bool {
-	return !reflect.DeepEqual(b.itemsAdd, b.itemsDel)
+	return b.hashesChanged || !reflect.DeepEqual(b.itemsAdd, b.itemsDel)
 }
 
 // Commit ...
 func (b *TCPBackends) Commit() {
 	b.itemsAdd = map[int]*TCPBackend{}
 	b.itemsDel = map[int]*TCPBackend{}
+	b.hashesChanged = false
+}
+
+// SetContentHash declares the hash of the content of the certificate, CA
+// and CRL files of a port, so a new content under the same name is a change.
+func (b *TCPBackends) SetContentHash(port int, hash string) {
+	if b.hashes == nil {
+		b.hashes = map[int]string{}
+	}
+	if b.hashes[port] != hash {
+		b.hashes[port] = hash
+		b.hashesChanged = true
+	}
 }
 
 // RemoveAll ...
